@@ -465,9 +465,202 @@ def main(run):
             sig = SIGS.get(cname, f"request:{cname}")
             run.candidate(sig, f"{scn['request']} with pre-state {[e['path'] for e in scn['tree'] if e['path'].startswith('L/n1')]} -> {real['result']}",
                           scn, confirm(cname, ctx, real, scn))
+    writer_step(run, P)
+
+
+# ---------------------------------------------------------------------------------------------- LayerRef writers
+WRITERS = ["metadata", "sboms", "execd"]
+
+
+def make_world_w(ctx):
+    """arbitrary state of an *existing* layer (dir present) plus the bystander; rich universe incl. exec.d/p2"""
+    w = make_world(ctx, True)
+    ctx.assume(w.fs[ctx.n1.dir].kind == DIR)
+    # a LayerRef only exists after a successful request of this build, whose post-condition (checked in the request step)
+    # is: toml present, valid, without unknown keys, declaring types
+    ctx.assume(w.fs[ctx.n1.toml].kind == FILE)
+    ctx.assume(z3.And(z3.Bool("n1_doc_syntax_ok"), z3.Not(z3.Bool("n1_doc_has_unknown_key")), z3.Bool("n1_doc_has_types")))
+    w.add(f"{ctx.n1.dir}/exec.d/p2", sym_kind(ctx, "k_n1_exec_d_p2", [ABSENT, FILE]), content=z3.String("c_n1_exec_d_p2"))
+    ctx.assume(z3.Implies(w.fs[f"{ctx.n1.dir}/exec.d/p2"].kind != ABSENT, w.fs[f"{ctx.n1.dir}/exec.d"].kind == DIR))
+    ctx.n1.inner.append(f"{ctx.n1.dir}/exec.d/p2")
+    ctx.n1.all.append(f"{ctx.n1.dir}/exec.d/p2")
+    return w
+
+
+def writer_fns(P):
+    lr_fns = {}
+    for nm in ("write_metadata", "write_sboms", "write_exec_d_programs"):
+        k = P.impl_index.get(("LayerRef", None, nm))
+        if not k:
+            raise Inconclusive(f"LayerRef::{nm} not found")
+        lr_fns[nm] = k
+    return lr_fns
+
+
+def make_writer_entry(P, lr_fns):
+    def entry(ctx):
+        ctx.pre = snapshot_pre(ctx)
+        which = WRITERS[ctx.choose([True] * len(WRITERS), "writer")]
+        ctx.which = which
+        lr = P.mk_struct("LayerRef", name=Adt("LayerName", None, ["n1"]), layers_dir=L, buildpack=UNIT,
+                         state=Adt("LayerState", "Restored", ["c"]))
+        lrb = Box(lr)
+        if which == "metadata":
+            ctx.arg = MetaVal(z3.IntVal(88))
+            r = P.call(ctx, lr_fns["write_metadata"], [Ref(lrb), ctx.arg], tyenv={"M": "UserM"})
+        elif which == "sboms":
+            sub = [f for f in SBOM_EXT if ctx.choose([True, True], f"sbom-{f}") == 1]
+            ctx.arg = sub
+            fmt = {"cdx": "CycloneDxJson", "spdx": "SpdxJson", "syft": "SyftJson"}
+            sboms = VecV([P.mk_struct("Sbom", format=Adt("SbomFormat", fmt[f], []), data=f"new-{f}") for f in sub])
+            r = P.call(ctx, lr_fns["write_sboms"], [Ref(lrb), sboms], tyenv={})
+        else:
+            opt = ["none", "p2-ok", "p2-missing"][ctx.choose([True] * 3, "execd-arg")]
+            ctx.arg = opt
+            from mirsym import summ_coll
+            progs = summ_coll.AssocV(False)
+            if opt != "none":
+                progs.items.append(["p2", "/src/prog" if opt == "p2-ok" else "/src/missing"])
+            r = P.call(ctx, lr_fns["write_exec_d_programs"], [Ref(lrb), progs], tyenv={})
+        r = deref(r)
+        if r.variant == "Ok":
+            return {"res": "Ok"}
+        e = deref(r.fields[0])
+        return {"res": "Err:" + str(getattr(deref(e.fields[0]) if e.fields else e, "variant", "?"))}
+    return entry
+
+
+def writer_scenario(ctx, m):
+    ctx.req_kind = "cached_generic"
+    ctx.log = [("restored", None, "Keep")]
+    ctx.form = "RP"
+    scn = scenario_of(ctx, m)
+    if m.int(z3.Int("k_n1_exec_d_p2")) == FILE:
+        scn["tree"].append({"path": "L/n1/exec.d/p2", "kind": "file", "content": "old:p2"})
+    wspec = {"kind": ctx.which}
+    if ctx.which == "metadata":
+        wspec["v"] = "id88"
+    elif ctx.which == "sboms":
+        wspec["formats"] = ctx.arg
+    else:
+        wspec["programs"] = [] if ctx.arg == "none" else [{"name": "p2", "source": "src/prog" if ctx.arg == "p2-ok" else "src/missing"}]
+    scn["writers"] = [wspec]
+    return scn
+
+
+def writer_step(run, P):
+    lr_fns = writer_fns(P)
+    run.encoded(P, lr_fns.values())
+    entry = make_writer_entry(P, lr_fns)
+    res = run.explore(P, entry, lambda ctx: [], make_world_w, max_paths=400000, max_depth=60)
+    run.log(f"writer step: {len(res)} paths")
+    kinds = {}
+    pending = []
+    for ctx, (kind, out) in res:
+        if kind != "return":
+            run.inconclusive.append(f"writer path ends with {kind}: {out}")
+            continue
+        w, n1, n2 = ctx.world, ctx.n1, ctx.n2
+        pre = ctx.pre
+        key = f"{ctx.which}:{out['res'].split(':')[0]}"
+        kinds[key] = kinds.get(key, 0) + 1
+        ex, syn, ht, flags, hm, mid, hu = pre["doc"]
+        pex, psyn, pht, pflags, phm, pmid, phu = doc_view(ctx, w.fs[n1.toml])
+        clauses = {}
+
+        def same(paths):
+            cs = []
+            for p_ in paths:
+                a, bn = pre["nodes"][p_], w.fs[p_]
+                cs.append(b2(bn.kind == a[0]))
+                if a[2] is not None and bn.content is not None and not isinstance(a[2], TomlText) and not isinstance(bn.content, TomlText):
+                    cs.append(z3.Implies(b2(a[0] != ABSENT), S(bn.content) == S(a[2])))
+            return z3.And(cs)
+        toml_same = z3.And(pex == ex, psyn == syn, pht == ht, phm == hm, phu == hu, z3.Implies(pht, z3.And([x == y for x, y in zip(pflags, flags)])),
+                           z3.Implies(phm, pmid == mid))
+        execd = [p_ for p_ in n1.inner if "/exec.d" in p_]
+        others = [p_ for p_ in n1.inner if "/exec.d" not in p_]
+        if out["res"] == "Ok":
+            if ctx.which == "metadata":
+                clauses["metadata-written"] = z3.And(pex, psyn, phm, pmid == z3.IntVal(88), pht == ht, z3.Implies(pht, z3.And([x == y for x, y in zip(pflags, flags)])))
+                clauses["metadata-leaves-rest"] = z3.And(same(n1.inner + n1.sboms))
+            elif ctx.which == "sboms":
+                cs = []
+                for f, p_ in zip(SBOM_EXT, n1.sboms):
+                    if f in ctx.arg:
+                        cs.append(z3.And(b2(w.fs[p_].kind == FILE), S(w.fs[p_].content) == z3.StringVal(f"new-{f}")))
+                    else:
+                        cs.append(b2(w.fs[p_].kind == ABSENT))
+                clauses["sboms-are-exactly-the-given-set"] = z3.And(cs)
+                clauses["sboms-leave-rest"] = z3.And(same(n1.inner), toml_same)
+            else:
+                d, pold, pnew = f"{n1.dir}/exec.d", f"{n1.dir}/exec.d/p", f"{n1.dir}/exec.d/p2"
+                if ctx.arg == "none":
+                    clauses["execd-replaced"] = z3.And(b2(w.fs[d].kind == ABSENT), b2(w.fs[pold].kind == ABSENT), b2(w.fs[pnew].kind == ABSENT))
+                elif ctx.arg == "p2-ok":
+                    clauses["execd-replaced"] = z3.And(b2(w.fs[d].kind == DIR), b2(w.fs[pold].kind == ABSENT), b2(w.fs[pnew].kind == FILE),
+                                                       S(w.fs[pnew].content) == z3.StringVal("prog-bytes"))
+                else:
+                    clauses["execd-replaced"] = z3.BoolVal(False)       # a missing source must be an error
+                clauses["execd-leaves-rest"] = z3.And(same(others + n1.sboms), toml_same)
+        elif ctx.which == "execd" and ctx.arg == "p2-ok":
+            clauses["execd-valid-request-succeeds"] = z3.BoolVal(False)
+        elif ctx.which == "sboms":
+            clauses["sboms-valid-request-succeeds"] = z3.BoolVal(False)
+        clauses["other-layers-untouched"] = same(n2.all)
+        want = model_terms(ctx) + [z3.Int("k_n1_exec_d_p2")]
+        violated = False
+        for cname, cl in clauses.items():
+            run.obligation()
+            ans, m = run.check(ctx.pc + [z3.Not(cl)], f"wr.{cname}", want=want)
+            if ans == "sat":
+                violated = True
+                pending.append((ctx, out, m, cname))
+        ans, m = run.check(ctx.pc, "wr.witness", want=want)
+        if ans == "sat":
+            pending.append((ctx, out, m, "witness-of-violating-path" if violated else None))
+    run.extra["writer_kinds"] = kinds
+    if run.tier == "quick":
+        cands = [p_ for p_ in pending if p_[3] not in (None, "witness-of-violating-path")]
+        wit = [p_ for p_ in pending if p_[3] in (None, "witness-of-violating-path")]
+        pending = cands + wit[::max(1, len(wit) // 150)]
+    reqs = [writer_scenario(ctx, m) for ctx, out, m, cname in pending]
+    reals = run.replay.run(reqs)
+    for (ctx, out, m, cname), scn, real in zip(pending, reqs, reals):
+        if "panic" in real or "error" in real:
+            run.mismatch(f"replay driver failed: {real}")
+            continue
+        if not real["result"].startswith("Ok:Restored"):
+            # the stored toml does not parse as generic metadata: no LayerRef can be obtained through the public API
+            run.stats["validated"] += 0
+            continue
+        rw = (real.get("writers") or ["?"])[0]
+        pred = out["res"].split(":")[0]
+        if rw.split(":")[0] != pred:
+            run.mismatch(f"writer {ctx.which}({ctx.arg}): predicted {out['res']} real {rw} scenario {json.dumps(scn)[:500]}")
+            continue
+        rk = {e["path"]: e for e in real["tree"]}
+        bad = None
+        for p_, n in ctx.world.fs.items():
+            if p_.startswith(L + "/n1/") or ".sbom." in p_:
+                k = n.kind if isinstance(n.kind, int) else m.int(n.kind)
+                if ({ABSENT: None, FILE: "file", DIR: "dir"}[k]) != (rk.get(p_[1:]) or {}).get("kind"):
+                    bad = p_
+        if bad and cname in (None,):
+            run.mismatch(f"writer {ctx.which}({ctx.arg}): node {bad} differs from prediction; scenario {json.dumps(scn)[:500]}")
+            continue
+        run.stats["validated"] += 1
+        if cname not in (None, "witness-of-violating-path"):
+            run.candidate(f"writer:{cname}", f"{ctx.which}({ctx.arg}) on {[e['path'] for e in scn['tree'] if e['path'].startswith('L/n1')]} -> {rw}", scn, True)
+        elif cname is None:
+            run.sample({"writer": ctx.which, "arg": str(ctx.arg), "result": rw}, limit=12)
 
 
 def finalize(run):
+    wk = run.extra.get("writer_kinds", {})
+    for need in ("metadata:Ok", "sboms:Ok", "execd:Ok", "execd:Err"):
+        if not wk.get(need):
+            run.inconclusive.append(f"vacuity: writer outcome {need} never reached")
     # vacuity: every outcome class of the decision table must have been reached (over all shards)
     classes = run.extra.get("outcome_classes", {})
     for needed in ("Ok:Empty:NewlyCreated", "Ok:Restored", "Ok:Empty:RestoredLayerAction", "Ok:Empty:InvalidMetadataAction", "Err:Buildpack", "Err:Layer"):
